@@ -496,3 +496,188 @@ func (e *Effects) callEffects(fn *ssa.Function, ci ssa.CallInstruction) []string
 	sort.Strings(out)
 	return out
 }
+
+// allocEscapes: may the address of this allocation be held by anything other than the code of
+// the function itself (and closures it calls directly)? If not, no callee can write the object.
+func allocEscapes(a *ssa.Alloc) bool {
+	seen := map[ssa.Value]bool{}
+	return valueEscapes(a, seen, 0)
+}
+
+func valueEscapes(v ssa.Value, seen map[ssa.Value]bool, depth int) bool {
+	if seen[v] {
+		return false
+	}
+	seen[v] = true
+	if depth > 6 {
+		return true
+	}
+	refs := v.Referrers()
+	if refs == nil {
+		return true
+	}
+	for _, r := range *refs {
+		switch x := r.(type) {
+		case *ssa.DebugRef:
+		case *ssa.UnOp:
+			// load through the pointer
+		case *ssa.Store:
+			if x.Val == v {
+				return true
+			}
+		case *ssa.FieldAddr:
+			if valueEscapes(x, seen, depth+1) {
+				return true
+			}
+		case *ssa.IndexAddr:
+			if valueEscapes(x, seen, depth+1) {
+				return true
+			}
+		case *ssa.MakeClosure:
+			// captured: fine if the closure is only ever called directly and the captured variable
+			// does not escape inside the closure either
+			if closureEscapes(x, seen, depth+1) {
+				return true
+			}
+			fn := x.Fn.(*ssa.Function)
+			for i, b := range x.Bindings {
+				if b == v && i < len(fn.FreeVars) {
+					if valueEscapes(fn.FreeVars[i], seen, depth+1) {
+						return true
+					}
+				}
+			}
+		default:
+			return true
+		}
+	}
+	return false
+}
+
+func closureEscapes(c *ssa.MakeClosure, seen map[ssa.Value]bool, depth int) bool {
+	refs := c.Referrers()
+	if refs == nil {
+		return true
+	}
+	for _, r := range *refs {
+		switch x := r.(type) {
+		case *ssa.DebugRef:
+		case *ssa.Call:
+			if x.Call.Value != c {
+				return true
+			}
+		case *ssa.Defer:
+			if x.Call.Value != c {
+				return true
+			}
+		default:
+			return true
+		}
+	}
+	return false
+}
+
+// allocWrittenInLoop: may a non-escaping allocation be assigned inside the given loop body –
+// by a direct store in the loop, or by a store in any closure that captures it (closures are
+// treated conservatively: a capturing closure that stores to the variable counts wherever it is).
+func allocWrittenInLoop(a *ssa.Alloc, body map[*ssa.BasicBlock]bool) bool {
+	for b := range body {
+		for _, ins := range b.Instrs {
+			if st, ok := ins.(*ssa.Store); ok {
+				if rootAlloc(st.Addr) == a {
+					return true
+				}
+			}
+		}
+	}
+	refs := a.Referrers()
+	if refs == nil {
+		return true
+	}
+	for _, r := range *refs {
+		if mc, ok := r.(*ssa.MakeClosure); ok {
+			fn := mc.Fn.(*ssa.Function)
+			for i, bnd := range mc.Bindings {
+				if bnd == a && i < len(fn.FreeVars) {
+					if freeVarWritten(fn.FreeVars[i], 0) {
+						return true
+					}
+				}
+			}
+		}
+	}
+	return false
+}
+
+func freeVarWritten(fv *ssa.FreeVar, depth int) bool {
+	if depth > 5 {
+		return true
+	}
+	refs := fv.Referrers()
+	if refs == nil {
+		return false
+	}
+	for _, r := range *refs {
+		switch x := r.(type) {
+		case *ssa.Store:
+			if rootValue(x.Addr) == ssa.Value(fv) {
+				return true
+			}
+		case *ssa.FieldAddr, *ssa.IndexAddr:
+			// stores through derived addresses
+			if derivedStored(r.(ssa.Value), 0) {
+				return true
+			}
+		case *ssa.MakeClosure:
+			fn := x.Fn.(*ssa.Function)
+			for i, bnd := range x.Bindings {
+				if bnd == ssa.Value(fv) && i < len(fn.FreeVars) {
+					if freeVarWritten(fn.FreeVars[i], depth+1) {
+						return true
+					}
+				}
+			}
+		}
+	}
+	return false
+}
+
+func derivedStored(v ssa.Value, depth int) bool {
+	if depth > 5 {
+		return true
+	}
+	refs := v.Referrers()
+	if refs == nil {
+		return false
+	}
+	for _, r := range *refs {
+		switch x := r.(type) {
+		case *ssa.Store:
+			if x.Addr == v {
+				return true
+			}
+		case *ssa.FieldAddr, *ssa.IndexAddr:
+			if derivedStored(r.(ssa.Value), depth+1) {
+				return true
+			}
+		}
+	}
+	return false
+}
+
+func rootValue(v ssa.Value) ssa.Value {
+	for {
+		switch x := v.(type) {
+		case *ssa.FieldAddr:
+			v = x.X
+		case *ssa.IndexAddr:
+			if _, ok := x.X.Type().Underlying().(*types.Pointer); ok {
+				v = x.X
+			} else {
+				return v
+			}
+		default:
+			return v
+		}
+	}
+}
